@@ -11,6 +11,7 @@
 #include <stdlib.h>
 #include "qsv.h"
 #include "logging.h"
+#include "logging-private.h"
 #ifndef LMAX
 #define LMAX 70000
 #endif
